@@ -8,6 +8,8 @@ pub mod c11;
 pub mod c13;
 pub mod wrap;
 pub mod c14;
+pub mod c19;
+pub mod c20;
 pub mod contract;
 pub mod cgen;
 pub mod cview;
@@ -32,6 +34,8 @@ pub fn dispatch(id: &str, args: &RunArgs) -> i32 {
         "C11" => run_prop(&wrap::C11, args),
         "C13" => run_prop(&c13::C13, args),
         "C14" => run_prop(&c14::C14, args),
+        "C19" => run_prop(&c19::C19, args),
+        "C20" => run_prop(&c20::C20, args),
         _ => {
             eprintln!("unknown property id {id}");
             2
